@@ -826,6 +826,128 @@ Proof.
     + intros [->|H]; auto.
 Qed.
 
+Lemma NoDup_app_one {A} (l : list A) (x : A) : NoDup l -> ~ In x l -> NoDup (l ++ [x]).
+Proof.
+  induction l as [|y l IH]; intros Hn Hx; simpl.
+  - constructor; [intros [] | constructor].
+  - inversion Hn as [|y' l' Hy Hl]; subst. constructor.
+    + rewrite in_app_iff. intros [H|[H|[]]]; [exact (Hy H)|]. apply Hx. left. symmetry. exact H.
+    + apply IH; [exact Hl|]. intros H. apply Hx. right. exact H.
+Qed.
+
+(* ================================================================== F: the representation invariant is kept by the star removals.
+   c represents K: contains agrees with K on strictly increasing lists, the stored blockers are exactly the minimal
+   non-faces of K of dimension >= 2 (as strictly increasing lists), stored once *)
+Definition inc (s : list Z) : Prop := StronglySorted Z.lt s.
+Definition represents (c : cplx) (K : list Z -> bool) : Prop :=
+  (forall t, inc t -> contains c t = K t) /\
+  (forall b, In b (blk c) <-> inc b /\ mnf K b /\ (3 <= length b)%nat) /\
+  NoDup (blk c).
+
+Lemma inc_NoDup s : inc s -> NoDup s.
+Proof.
+  induction 1 as [|x l Hl IH Hx]; constructor; auto.
+  intros Hin. rewrite Forall_forall in Hx. specialize (Hx x Hin). lia.
+Qed.
+Lemma inc_ssub_subb s t : inc s -> inc t -> ssub s t = subb s t.
+Proof.
+  intros Hs Ht. apply eq_true_iff_eq. rewrite subb_sub. apply sorted_ssub_sub; auto.
+Qed.
+
+Lemma delete_containing_blk (c : cplx) (s : simplex) (v0 : Z) : NoDup (blk c) -> In v0 s ->
+  let c1 := fold_left delete_blocker (filter (fun b0 => ssub s b0) (blockers_at c v0)) c in
+  NoDup (blk c1) /\ forall b, In b (blk c1) <-> In b (blk c) /\ ssub s b = false.
+Proof.
+  intros Hn Hv.
+  set (L := filter (fun b0 => ssub s b0) (blockers_at c v0)).
+  destruct (fold_delete_blocker_NoDup L c Hn) as [N1 N2]. split; auto.
+  assert (HL : forall x, In x L <-> In x (blk c) /\ ssub s x = true).
+  { intros x. unfold L, blockers_at. rewrite !filter_In. split; [tauto|]. intros [H1 H2]. repeat split; auto.
+    apply smem_In. apply (proj1 (ssub_incl _ _) H2). auto. }
+  intros b. rewrite N2, HL. destruct (ssub s b); split; intros [H1 H2]; split; auto; try congruence.
+  - exfalso. apply H2. auto.
+  - intros [_ H]. discriminate.
+Qed.
+
+Lemma hdz_In (s : simplex) : s <> [] -> In (hdz s) s.
+Proof. destruct s; [congruence|]. intros _. left. reflexivity. Qed.
+
+Theorem remove_star_simplex_keeps_representation thr (c : cplx) K (sigma : simplex) :
+  closed K -> represents c K -> inc sigma -> (3 <= length sigma)%nat -> K sigma = true ->
+  represents (remove_star_simplex thr c sigma) (K_rs K sigma).
+Proof.
+  intros Hc [R1 [R2 R3]] Hi Hl Hk. split; [|split].
+  - intros t Ht. rewrite remove_star_simplex_spec; auto using inc_NoDup. rewrite (R1 t Ht). unfold K_rs.
+    rewrite inc_ssub_subb; auto.
+  - intros b. rewrite remove_star_simplex_blockers; auto. rewrite (remove_star_blockers K sigma Hc Hk b). split.
+    + intros [->|[Hb Hs]].
+      * split; auto.
+      * apply R2 in Hb. destruct Hb as [Hb1 [Hb2 Hb3]]. split; auto. split; auto. right. split; auto.
+        intros H. apply (sorted_ssub_sub b sigma Hi Hb1) in H. congruence.
+    + intros [Hb1 [[->|[Hb2 Hb4]] Hb3]]; auto. right. split; [apply R2; auto|].
+      destruct (ssub sigma b) eqn:E; auto. exfalso. apply Hb4. apply (sorted_ssub_sub b sigma Hi Hb1). auto.
+  - unfold remove_star_simplex.
+    assert (Hd0 : dim sigma =? 0 = false) by (apply Z.eqb_neq; unfold dim, zlen; lia).
+    assert (Hd1 : dim sigma =? 1 = false) by (apply Z.eqb_neq; unfold dim, zlen; lia).
+    rewrite Hd0, Hd1. unfold remove_blocker_containing_simplex.
+    assert (Hne : sigma <> []) by (intros ->; simpl in Hl; lia).
+    destruct (delete_containing_blk c sigma (hdz sigma) R3 (hdz_In sigma Hne)) as [N1 N2].
+    set (c1 := fold_left delete_blocker (filter (fun b0 => ssub sigma b0) (blockers_at c (hdz sigma))) c) in *.
+    unfold add_blocker. destruct (contains_blocker c1 sigma) eqn:E; auto.
+    simpl blk. apply NoDup_app_one; auto.
+    intros Hin. apply N2 in Hin. destruct Hin as [_ Hin]. rewrite ssub_refl in Hin. discriminate.
+Qed.
+
+Lemma inc_pair a b : a <> b -> inc [Z.min a b; Z.max a b].
+Proof.
+  intros H. repeat constructor. lia.
+Qed.
+
+Theorem remove_star_edge_keeps_representation thr (c : cplx) K (a b : Z) :
+  closed K -> represents c K -> a <> b -> no_big_blocker thr c [Z.min a b; Z.max a b] ->
+  K [Z.min a b; Z.max a b] = true ->
+  represents (remove_star_edge thr c a b) (K_rs K [Z.min a b; Z.max a b]).
+Proof.
+  intros Hc [R1 [R2 R3]] Hab Hnb Hk.
+  set (s := [Z.min a b; Z.max a b]) in *.
+  assert (Hi : inc s) by (apply inc_pair; auto).
+  assert (Hblk : blk (remove_star_edge thr c a b)
+                 = blk (fold_left delete_blocker (filter (fun b0 => ssub s b0) (blockers_at c (Z.min a b))) c)).
+  { unfold remove_star_edge. fold s. unfold s at 1. rewrite update_blockers_no_big; auto. }
+  destruct (delete_containing_blk c s (Z.min a b) R3 (or_introl eq_refl)) as [N1 N2].
+  split; [|split].
+  - intros t Ht. rewrite remove_star_edge_spec; auto. rewrite (R1 t Ht). unfold K_rs. fold s. rewrite inc_ssub_subb; auto.
+  - intros b0. rewrite Hblk, N2. rewrite (remove_star_blockers K s Hc Hk b0). split.
+    + intros [Hb Hs]. apply R2 in Hb. destruct Hb as [Hb1 [Hb2 Hb3]]. split; auto. split; auto. right. split; auto.
+      intros H. apply (sorted_ssub_sub b0 s Hi Hb1) in H. congruence.
+    + intros [Hb1 [[->|[Hb2 Hb4]] Hb3]]; [simpl in Hb3; lia|]. split; [apply R2; auto|].
+      destruct (ssub s b0) eqn:E; auto. exfalso. apply Hb4. apply (sorted_ssub_sub b0 s Hi Hb1). auto.
+  - rewrite Hblk. auto.
+Qed.
+
+Theorem remove_star_vertex_keeps_representation thr (c : cplx) K (v : Z) :
+  closed K -> represents c K -> no_big_blocker thr c [v] -> K [v] = true ->
+  represents (remove_star_vertex thr c v) (K_rs K [v]).
+Proof.
+  intros Hc [R1 [R2 R3]] Hnb Hk.
+  assert (Hi : inc [v]) by (repeat constructor).
+  assert (Hblk : blk (remove_star_vertex thr c v)
+                 = blk (fold_left delete_blocker (filter (fun b0 => ssub [v] b0) (blockers_at c v)) c)).
+  { unfold remove_star_vertex. rewrite update_blockers_no_big; auto.
+    set (c1 := fold_left delete_blocker (filter (fun b0 => ssub [v] b0) (blockers_at c v)) c).
+    destruct (fold_remove_edges v (nbrs c1 v) c1) as [_ [_ [G3 _]]]. simpl blk. exact G3. }
+  destruct (delete_containing_blk c [v] v R3 (or_introl eq_refl)) as [N1 N2].
+  split; [|split].
+  - intros t Ht. rewrite remove_star_vertex_spec; auto. rewrite (R1 t Ht). unfold K_rs.
+    rewrite <- (inc_ssub_subb [v] t Hi Ht). unfold ssub. simpl. rewrite andb_true_r. auto.
+  - intros b0. rewrite Hblk, N2. rewrite (remove_star_blockers K [v] Hc Hk b0). split.
+    + intros [Hb Hs]. apply R2 in Hb. destruct Hb as [Hb1 [Hb2 Hb3]]. split; auto. split; auto. right. split; auto.
+      intros H. apply (sorted_ssub_sub b0 [v] Hi Hb1) in H. congruence.
+    + intros [Hb1 [[->|[Hb2 Hb4]] Hb3]]; [simpl in Hb3; lia|]. split; [apply R2; auto|].
+      destruct (ssub [v] b0) eqn:E; auto. exfalso. apply Hb4. apply (sorted_ssub_sub b0 [v] Hi Hb1). auto.
+  - rewrite Hblk. auto.
+Qed.
+
 (* ================================================================== witnesses *)
 (* boundary of the tetrahedron 0123 built through the transcribed operations *)
 Definition complete4 : cplx :=
